@@ -321,11 +321,15 @@ def finish(run, level_note_extra=None, rule=None, exhaustive=False, assumptions=
     # conformance notes of the trace specs (the recorded result is not one the operational model allows, no property predicate
     # failed): printed, recorded, never a verdict
     drift = {}
+    first_case = {}
     for n in run.notes:
         if n and str(n[0]).startswith("DRIFT") and len(n) > 1:
             drift[(n[0], n[1])] = drift.get((n[0], n[1]), 0) + 1
+            if len(n) > 4:
+                first_case.setdefault((n[0], n[1]), n[4])
     for (kind, op), cnt in sorted(drift.items()):
-        print("DRIFT-NOTE: %s on %s: code and operational model disagree %d times (no listed property violated by it)" % (kind, op, cnt))
+        print("DRIFT-NOTE: %s on %s: code and operational model disagree %d times (no listed property violated by it)%s" % (
+            kind, op, cnt, "; first case %s" % first_case[(kind, op)] if (kind, op) in first_case else ""))
     if drift:
         run.extra["drift_by_operation"] = {"%s/%s" % k: v for k, v in drift.items()}
     for kid, (k, n) in sorted(hits.items()):
